@@ -888,3 +888,31 @@ def check_ph_label_precision(ctx, rule, prog, sections):
                '(%d with a literal precision: %s)' % (qual, n, sorted(ph_vars), len(fixed),
                                                      [f[1] + ':' + f[2] for _c, f in fixed][:6]),
                out, fixed[0][0] if fixed else fn)
+
+
+def check_mapped_sidechain_always_created(ctx, rule, prog):
+    """Every protein atom whose "RES-ATOM" key is in protein_group_mapping gets
+    its group: the return of the mapped class is conditioned on the record
+    type and the key membership only - not on what the atom is bonded to (an
+    Asp that lost both carboxylate oxygens still has its defining atom CG)."""
+    from sa.canon import canon as _canon
+    gmod = prog.mod('group')
+    ipg = gmod.func('is_protein_group')
+    can = _canon(ipg)
+    param = [a.arg for a in ipg.args.args][-1]
+    rets = [r for r in walk_no_nested(ipg) if isinstance(r, ast.Return) and isinstance(r.value, ast.Call)
+            and 'protein_group_mapping' in can.text(r.value.func)]
+    ok = len(rets) == 1
+    extra = []
+    for r in rets:
+        for e, pol in facts_at(r, ipg):
+            t = can.text(e)
+            if t.replace(' ', '') in ("%s.type=='atom'" % param,):
+                continue
+            if pol and ' in ' in t and 'protein_group_mapping' in t.split(' in ', 1)[1] and ' not in ' not in t:
+                continue
+            extra.append(('' if pol else 'not ') + t[:70])
+    ctx.ob(rule, 'mapped-side-chain:group-created-unconditionally', ok and not extra,
+           'is_protein_group returns the mapped group class for every ATOM-record atom whose '
+           '"RES-ATOM" key is in protein_group_mapping (further conditions: %s)' % extra,
+           gmod, rets[0] if rets else ipg)
